@@ -82,3 +82,70 @@ Proof.
            exists si', h'. cbn [streams]. rewrite nget_nset, Ep'. apply Nat.eqb_neq in X. rewrite X.
            split; [exact P1 | split; [exact G' | exact R]].
 Qed.
+
+(* ---- SetService ---------------------------------------------------------------------------- *)
+Lemma set_svc_eq : forall c st j sv si p, nget (streams st) j = Some si -> si_svc si = None -> si_proto si = Some p ->
+  let q := si_peer si in
+  let '(m', e) := attach c (scopes st) (Stream j) (Svc sv) (SvcPeer sv q) false
+                         [Peer q; ProtoPeer p q; SvcPeer sv q; Proto p; Svc sv; System] in
+  set_svc c st j sv =
+  (match e with
+   | None => mkState m' (conns st) (nset (streams st) j (mkSinfo (si_in si) q (Some p) (Some sv))) (lims st)
+   | Some _ => with_scopes st m'
+   end, ecode e).
+Proof.
+  intros c st j sv si p G Hs Hp. cbv zeta. unfold set_svc, attach. rewrite G, Hs, Hp.
+  destruct (charge_one (Svc sv) _ _) as [m2|e1]; [|reflexivity].
+  destruct (charge_one (SvcPeer sv (si_peer si)) _ _) as [m4|e2]; reflexivity.
+Qed.
+
+Theorem set_svc_inv : forall c st a j sv s,
+  cfg_ok c -> Inv c (scopes st) a -> Link st a -> nget (astreams a) j = Some s ->
+  novf (scopes st) (mem (use_of (scopes st) (Stream j))) ->
+  Inv c (scopes (fst (step c st (OSetSvc j sv)))) (anext c st a (OSetSvc j sv)) /\
+  Link (fst (step c st (OSetSvc j sv))) (anext c st a (OSetSvc j sv)).
+Proof.
+  intros c st a j sv s LO I L Gs Ov. destruct L as [Lc Ls].
+  destruct (Ls j s Gs) as (si & h & Gsi & Gh & Ep & Epr & Esv & Epar & Hsv).
+  unfold anext. cbn [step astep]. rewrite Gs.
+  assert (Same : Inv c (scopes st) a /\ Link st a) by (split; [exact I | split; assumption]).
+  destruct (as_svc s) as [sv0|] eqn:As.
+  { unfold set_svc. rewrite Gsi, Esv. cbn [fst]. replace (E_OTHER =? 0) with false by reflexivity. exact Same. }
+  destruct (as_proto s) as [p|] eqn:Ap.
+  2:{ unfold set_svc. rewrite Gsi, Esv, Epr. cbn [fst]. replace (E_OTHER =? 0) with false by reflexivity. exact Same. }
+  pose proof (set_svc_eq c st j sv si p Gsi Esv Epr) as Eq. cbv zeta in Eq.
+  set (q := si_peer si) in *. set (P' := [Peer q; ProtoPeer p q; SvcPeer sv q; Proto p; Svc sv; System]) in *.
+  assert (Eq' : as_peer s = q) by (symmetry; exact Ep).
+  set (Pa := [Peer (as_peer s); ProtoPeer p (as_peer s); SvcPeer sv (as_peer s); Proto p; Svc sv; System]).
+  set (a2 := mkAstate (holders (set_par a (Stream j) Pa)) (aconns (set_par a (Stream j) Pa))
+                      (nset (astreams (set_par a (Stream j) Pa)) j (mkAstream (as_peer s) (Some p) (Some sv)))).
+  assert (Hpar : h_par h = [Peer q; ProtoPeer p q; Proto p; System]).
+  { rewrite Epar. unfold stream_par. rewrite Ap, As, Eq'. reflexivity. }
+  pose proof (attach_inv c (scopes st) a a2 (Stream j) h (Svc sv) (SvcPeer sv q) false P' LO I eq_refl Gh eq_refl eq_refl eq_refl) as H.
+  specialize (H ltac:(discriminate) ltac:(discriminate) ltac:(discriminate) ltac:(discriminate)).
+  specialize (H ltac:(unfold P'; repeat constructor; cbn; intuition discriminate)).
+  specialize (H ltac:(unfold P'; intros x [<-|[<-|[<-|[<-|[<-|[<-|[]]]]]]]; reflexivity)).
+  specialize (H ltac:(intros x; rewrite Hpar; unfold P'; cbn [countb]; lia) Ov).
+  specialize (H ltac:(unfold a2, Pa; cbn [holders]; rewrite Eq'; apply set_par_holders, Gh)).
+  destruct (attach c (scopes st) (Stream j) (Svc sv) (SvcPeer sv q) false P') as [m' e]. rewrite Eq. cbn [fst].
+  destruct e as [e|].
+  - rewrite ecode_some. cbn [hd scopes with_scopes]. split; [exact H|]. split.
+    + intros i ac Gi. destruct (Lc i ac Gi) as (ci & hc & R). exists ci, hc. exact R.
+    + intros j' s' Gj'. destruct (Ls j' s' Gj') as (si' & hs & R). exists si', hs. exact R.
+  - cbn [ecode]. replace (0 =? 0) with true by reflexivity. cbn [hd scopes]. fold Pa a2. split; [exact H|]. split.
+    + intros i ac Gi. unfold a2 in Gi. cbn [aconns] in Gi. unfold set_par in Gi. rewrite Gh in Gi. cbn [aconns] in Gi.
+      destruct (Lc i ac Gi) as (ci & hc & P1 & P2 & R).
+      destruct (hset_other_leaf (holders a) (Stream j) (mkHolder (h_own h) Pa (h_chain h) (h_dead h)) (Conn i) hc ltac:(discriminate) P2) as (h' & G' & Ep').
+      exists ci, h'. unfold a2. cbn [holders conns]. rewrite (set_par_holders a (Stream j) h _ Gh), Ep'.
+      split; [exact P1 | split; [exact G' | exact R]].
+    + intros j' s' Gj'. unfold a2 in Gj'. cbn [astreams] in Gj'. unfold set_par in Gj'. rewrite Gh in Gj'. cbn [astreams] in Gj'.
+      rewrite nget_nset in Gj'. unfold a2. cbn [holders streams]. rewrite (set_par_holders a (Stream j) h _ Gh).
+      destruct (Nat.eqb j j') eqn:X.
+      * apply Nat.eqb_eq in X. subst j'. inversion Gj'; subst s'. eexists. eexists. cbn [streams holders].
+        rewrite nget_nset_same, hget_hset, sid_eqb_refl. split; [reflexivity|]. split; [reflexivity|]. cbn.
+        split; [symmetry; exact Eq'|]. split; [reflexivity|]. split; [reflexivity|]. split; [reflexivity | discriminate].
+      * apply Nat.eqb_neq in X. destruct (Ls j' s' Gj') as (si' & hs & P1 & P2 & R).
+        destruct (hset_other_leaf (holders a) (Stream j) (mkHolder (h_own h) Pa (h_chain h) (h_dead h)) (Stream j') hs ltac:(congruence) P2) as (h' & G' & Ep').
+        exists si', h'. cbn [streams]. rewrite nget_nset, Ep'. apply Nat.eqb_neq in X. rewrite X.
+        split; [exact P1 | split; [exact G' | exact R]].
+Qed.
